@@ -963,6 +963,7 @@ def inplace_case(draw, shard, tier):
                                   "share_new", "share_copy", "share_new_used")))
     for _ in range(d.int(1, 3)):
         ops.append(dict(op="set_form", form=d.pick(*CONV_FORMS)) if d.coin() else dict(op="set_frame", frame=d.pick(*CONV_FRAMES)))
+        ops[-1]["on_clone"] = d.int(0, 2) == 0      # the conversion is made on the library's copy taken earlier (if any)
         for _ in range(d.int(0, 2)):
             ops.append(dict(op=d.pick("interp", "node", "read", "copy()", "dump")))
     ops += [dict(op="node"), dict(op="interp")]
@@ -992,6 +993,7 @@ def check_inplace(case):
     xs = np.array([dt._mjd for dt in dates])
     form, frame = "cartesian", "EME2000"
     other = None
+    clone = None
     worst = 0.0
     seen = []
     converted = False
@@ -1006,6 +1008,9 @@ def check_inplace(case):
                  "pickle": lambda e: pickle.loads(pickle.dumps(e))}[kind](eph)
             if len(c) != n:
                 raise Violation("clone-length", f"step {step}: {kind} has {len(c)} points")
+            if kind != "copy.copy":
+                # a copy made by the library (own points): it is kept, converted on its own later, and asked again
+                clone = dict(eph=c, form=form, frame=frame, how=kind)
         elif kind in ("share_new", "share_new_used", "share_copy"):
             # a second ephemeris holding the SAME point objects (built from them, or a shallow copy)
             other = copy.copy(eph) if kind == "share_copy" else Ephem(list(eph), method=method, order=k)
@@ -1014,10 +1019,16 @@ def check_inplace(case):
         elif kind == "dump":
             ccsds.dumps(eph)
         elif kind == "set_form":
-            eph.form = form = op["form"]
+            if op.get("on_clone") and clone is not None:
+                clone["eph"].form = clone["form"] = op["form"]
+            else:
+                eph.form = form = op["form"]
             converted = True
         elif kind == "set_frame":
-            eph.frame = frame = op["frame"]
+            if op.get("on_clone") and clone is not None:
+                clone["eph"].frame = clone["frame"] = op["frame"]
+            else:
+                eph.frame = frame = op["frame"]
             converted = True
         else:
             # the table is what the points now hold (their conversion is C01 / C02's subject)
@@ -1031,6 +1042,18 @@ def check_inplace(case):
             # `other` holds the same point objects; what IT answers after its points were converted behind its
             # back through `eph` is not asked (an ephemeris does not claim to follow changes made to its points by
             # another owner - DESIGN section 7); it only has to leave `eph` undisturbed
+            if clone is not None and kind == "node":
+                # the library's own copy answers from ITS points, whatever happened to the other ephemeris since
+                ce = clone["eph"]
+                rc = ce.interpolate(qd)
+                want_c = vals_of(ce[op["i"]])
+                if rc.form.name != clone["form"] or rc.frame.name != clone["frame"] or ce[op["i"]].form.name != clone["form"]:
+                    raise Violation("metadata-frame-form", f"step {step}: the {clone['how']} copy answers in {rc.frame.name}/"
+                                    f"{rc.form.name}, it is in {clone['frame']}/{clone['form']}")
+                if np.all(np.isfinite(want_c)) and not np.array_equal(vals_of(rc), want_c):
+                    raise Violation("stale-table-copy", f"step {step}, after {' > '.join(seen)}: the {clone['how']} copy (in "
+                                    f"{clone['frame']}/{clone['form']}) returns {vals_of(rc).tolist()} at the date of its point "
+                                    f"{op['i']}, which holds {want_c.tolist()}")
             res = eph.interpolate(qd)
             if res.form.name != form or res.frame.name != frame:
                 raise Violation("metadata-frame-form", f"step {step}: result in {res.frame.name}/{res.form.name}, the "
